@@ -273,6 +273,7 @@ class Explorer:
             p = Path(list(self.decisions), list(self.assume), out, exc, list(self.log))
             p.aborted = aborted
             p.injected_terms = list(self.injected_terms)
+            p.P = getattr(self, "cur_P", None)
             paths.append(p)
         return paths
 
